@@ -315,11 +315,14 @@ def wrapped_checks(real, spec, mode):
         if d.original_optimizer is not inner:
             fails.append(("C19:optimizer-passthrough:get", "original_optimizer is not the optimizer that was passed in", {}))
         old = (inner.param_groups, inner.state, inner.defaults)
-        ng, ns, nd = [dict(g) for g in inner.param_groups], type(inner.state)(type(inner.state).default_factory if hasattr(inner.state, "default_factory") else None), dict(inner.defaults)
+        import collections
+        ng, ns, nd = [dict(g) for g in inner.param_groups], collections.defaultdict(dict), dict(inner.defaults)
         try:
-            d.param_groups, d.state, d.defaults = ng, inner.state, nd
-            if not (inner.param_groups is ng and inner.defaults is nd):
-                fails.append(("C19:optimizer-passthrough:set", "assigning param_groups / defaults on the DP optimizer does not reach the inner optimizer", {}))
+            d.param_groups, d.state, d.defaults = ng, ns, nd
+            if not (inner.param_groups is ng and inner.state is ns and inner.defaults is nd):
+                fails.append(("C19:optimizer-passthrough:set", "assigning param_groups / state / defaults on the DP optimizer does not reach the inner optimizer", {}))
+            if not (d.param_groups is ng and d.state is ns and d.defaults is nd):
+                fails.append(("C19:optimizer-passthrough:set", "param_groups / state / defaults assigned on the DP optimizer are not read back", {}))
         finally:
             inner.param_groups, inner.state, inner.defaults = old
         sa, sb = d.state_dict(), inner.state_dict()
